@@ -65,7 +65,7 @@ segment it names, at its exact edge distance -/
 def ValidRec (cs : List Pt) (r : EI) : Prop :=
   (r.dist = 0 ∧ cs[r.seg]? = some r.coord) ∨
   (r.dist ≠ 0 ∧ ∃ a b, cs[r.seg]? = some a ∧ cs[r.seg + 1]? = some b ∧ SegMem r.coord a b ∧
-    r.dist = edgeDistance Arith.exact r.coord a b)
+    r.dist = edgeDistance Arith.exact r.coord a b ∧ r.coord ≠ b)
 
 theorem recSeg_valid {cs : List Pt} {s : Seg} (hs : SegOf cs s) {p : Pt} (hp : SegMem p s.p s.q) :
     ValidRec cs (recSeg s p) := by
@@ -74,12 +74,13 @@ theorem recSeg_valid {cs : List Pt} {s : Seg} (hs : SegOf cs s) {p : Pt} (hp : S
   · rename_i h
     have : p = s.q := by simpa using h
     left; exact ⟨rfl, by rw [this]; exact hs.2⟩
-  · by_cases hd : edgeDistance Arith.exact p s.p s.q = 0
+  · rename_i hpq
+    by_cases hd : edgeDistance Arith.exact p s.p s.q = 0
     · left
       refine ⟨hd, ?_⟩
       rw [edgeDistance_eq_zero hp hd]; exact hs.1
     · right
-      exact ⟨hd, s.p, s.q, hs.1, hs.2, hp, rfl⟩
+      exact ⟨hd, s.p, s.q, hs.1, hs.2, hp, rfl, by simpa using hpq⟩
 
 /-- **the key determines the record** -/
 theorem validRec_fk {cs : List Pt} {r r' : EI} (h : ValidRec cs r) (h' : ValidRec cs r') (hk : KeyEq r r') :
@@ -89,7 +90,7 @@ theorem validRec_fk {cs : List Pt} {r r' : EI} (h : ValidRec cs r) (h' : ValidRe
   unfold KeyEq at hk
   simp only at hk
   obtain ⟨rfl, rfl⟩ := hk
-  rcases h with ⟨h0, hc⟩ | ⟨hn, a, b, ha, hb, hm, hd⟩ <;> rcases h' with ⟨h0', hc'⟩ | ⟨hn', a', b', ha', hb', hm', hd'⟩
+  rcases h with ⟨h0, hc⟩ | ⟨hn, a, b, ha, hb, hm, hd, _⟩ <;> rcases h' with ⟨h0', hc'⟩ | ⟨hn', a', b', ha', hb', hm', hd', _⟩
   · simp only at hc hc'
     rw [hc] at hc'
     cases hc'; rfl
